@@ -5037,6 +5037,14 @@ class ParseCtx:
 
         return frozenset(result_set), target_dfa
 
+    def _add_case_clause(self, case_blocks, clause: lark.Tree):
+        labels, body = self._parse_case_clause(clause)
+        # every else claims the same inputs: a second one would silently replace (or be replaced by) the first
+        if None in labels and any(None in other for other in case_blocks):
+            raise IllegalParseTree("More than one else clause in a case statement", clause)
+        case_blocks[labels] = body
+        return labels
+
     def _parse_macro_call(self, lark_node_for_error: lark.Tree, macro: Macro, arguments: List[lark.Tree]):
         if len(arguments) != len(macro.arguments):
             raise IllegalParseTree("Incorrect number of arguments", lark_node_for_error)
@@ -5116,7 +5124,10 @@ class ParseCtx:
             return ProgramData.imbue(self._parse_assign_stmt(stmt, stmt.data == "append_stmt"), DTAG.SOURCE_LINE, stmt.meta.line, DTAG.SOURCE_COLUMN, stmt.meta.column)
         elif stmt.data == "case_stmt":
             # Find all of the matches
-            return ProgramData.imbue(ProgramData.imbue(CaseNode({k: v for k, v in (self._parse_case_clause(x) for x in stmt.children)}), 
+            case_blocks = {}
+            for clause in stmt.children:
+                self._add_case_clause(case_blocks, clause)
+            return ProgramData.imbue(ProgramData.imbue(CaseNode(case_blocks), 
                 DTAG.SOURCE_LINE, stmt.meta.line),
                 DTAG.SOURCE_COLUMN, stmt.meta.column
             )
@@ -5125,13 +5136,10 @@ class ParseCtx:
             priorities = {}
             for block in stmt.children:
                 if block.data == "case_clause":
-                    k, v = self._parse_case_clause(block)
-                    case_blocks[k] = v
+                    self._add_case_clause(case_blocks, block)
                 else:
                     for clause in block.children[1:]:
-                        k, v = self._parse_case_clause(clause)
-                        case_blocks[k] = v
-                        priorities[k] = int(block.children[0].value)
+                        priorities[self._add_case_clause(case_blocks, clause)] = int(block.children[0].value)
 
             return ProgramData.imbue(ProgramData.imbue(CaseNode(case_blocks, greedy=True, priorities=priorities), 
                 DTAG.SOURCE_LINE, stmt.meta.line),
